@@ -47,7 +47,6 @@ META = dict(
 
 KINDS = ['clean', 'one', 'several', 'bad']
 STEM_POOLS = [['fa', 'fb', 'fc', 'fd'], ['x1', 'x2', 'x3', 'x4'], ['mod_a', 'mod_b', 'mod_c', 'mod_d']]
-REAL_SLOTS = max(2, (os.cpu_count() or 4) // 2)     # concurrent real-pool runs
 CONFIGS = {'D': (), 'DV': ('violations',), 'DJ': ('junit',), 'DJV': ('junit', 'violations')}
 
 
@@ -525,7 +524,7 @@ def _unit_real(item):
         s = m['sched']
         if [tuple(e) for e in s.trace] != trace:
             return dict(uid=item['uid'], bad=f'model replay of {trace} gave {s.trace}')
-        with vsched.real_slot(item['scratch'], REAL_SLOTS):
+        with vsched.real_slot(item['scratch'], item.get('slots', 1)):
             for attempt in (1, 2):
                 bad = real_forced(env, item['cfg'], item['W'], trace, s.assigned_after,
                                   dict(count=m['count'], obs=observe(m)), f'{item["uid"]}_{attempt}', timeout=45.0 * attempt)
@@ -549,6 +548,7 @@ def file_sets(n, sequences):
 def run(ctx):
     from vf.explore import seeded_order
     scratch = str(ctx.scratch)
+    slots = max(1, ctx.nproc // 2 if ctx.nproc <= 4 else ctx.nproc // 4)    # real-pool runs alive at the same time (each: manager + W workers + controller + participants)
     quick = ctx.quick
     cases = []       # (kinds, cfg, W, split_depth)
     for n in (1, 2, 3):
@@ -562,20 +562,20 @@ def run(ctx):
             cases.append((kinds, 'DJV', 2, 0))
         for kinds in file_sets(3, sequences=False):
             cases.append((kinds, 'DJV', 2, 0))
-            cases.append((kinds, 'DJV', 3, 3))
+        cases.append((['one', 'several', 'bad'], 'DJV', 3, 3))          # 34650 interleavings
         for kinds in file_sets(4, sequences=False):
             cases.append((kinds, 'D', 2, 0))
             cases.append((kinds, 'D', 3, 0))
-        for kinds in (['clean', 'one', 'several', 'bad'], ['bad', 'several', 'one', 'clean']):
-            for cfg in ('DV', 'DJ'):
-                cases.append((kinds, cfg, 2, 2))
-                cases.append((kinds, cfg, 3, 4))
-    conf_sets = [['several', 'bad'], ['bad', 'one'], ['clean', 'several'], ['one', 'several', 'bad']]
+        for cfg in ('DV', 'DJ'):
+            cases.append((['clean', 'one', 'several', 'bad'], cfg, 2, 2))
+    # conformance on the real pool: (file set, handler config, W) triples - kept small on purpose: every real-pool run
+    # keeps a manager, W workers, a controller and the pool machinery alive
+    conf = [(['several', 'bad'], 'D', 2), (['bad', 'one'], 'DV', 2), (['clean', 'several'], 'DJ', 2),
+            (['one', 'several', 'bad'], 'D', 3)]
     if not quick:
-        conf_sets += [['bad', 'clean', 'one'], ['several', 'one', 'clean']]
-    ctx.require(all(any(c[0] == k for c in cases) for k in conf_sets), 'conformance file set is not among the explored cases')
-    conf_cfgs = ('D', 'DV', 'DJ') if quick else ('D', 'DV', 'DJ', 'DJV')
-
+        conf += [(['one', 'several', 'bad'], 'D', 2), (['one', 'several', 'bad'], 'DV', 2), (['bad', 'one'], 'DJV', 2),
+                 (['several', 'bad'], 'DV', 2), (['clean', 'several'], 'D', 2)]
+    ctx.require(all(any((c[0], c[1], c[2]) == k for c in cases) for k in conf), 'conformance case is not among the explored cases')
     # split the big searches into independent sub-trees
     split_items = [dict(uid=k, kinds=c[0], cfg=c[1], W=c[2], split=c[3], seed=ctx.seed, scratch=scratch)
                    for k, c in enumerate(cases) if c[3]]
@@ -584,11 +584,7 @@ def run(ctx):
     units = []
     pi = iter(prefixes)
     for ci, (kinds, cfg, W, split) in enumerate(cases):
-        want = (kinds in conf_sets and cfg in conf_cfgs and (len(kinds) == 3 or W == 2))
-        if len(kinds) == 3 and W == 3 and cfg in ('DJ', 'DJV'):
-            want = False       # 216 (DJ) / 7776 (DJV) classes per case; DV covers the two-list case with 3 workers
-        if quick and len(kinds) == 3 and not (cfg == 'D' or (cfg == 'DV' and W == 2)):
-            want = False       # quick: 3 files with the default handler (W=2,3) and with two lists on 2 workers
+        want = (kinds, cfg, W) in conf
         if split:
             for p in next(pi):
                 units.append(dict(case=ci, kinds=kinds, cfg=cfg, W=W, prefix=[list(x) for x in p], seed=ctx.seed,
@@ -638,6 +634,7 @@ def run(ctx):
         transitions += len(v.get('E', ()))
     for k, it in enumerate(real_items):
         it['uid'] = k
+        it['slots'] = slots
     dev_skip = os.environ.get('VF_DEV_SKIP_REAL')      # development only: the run then ends as HARNESS-ERROR
     if dev_skip:
         print(f'DEV: explore {t_explore:.1f}s units={len(units)} cases={len(cases)} schedules={schedules} traces={traces} '
@@ -665,15 +662,14 @@ def run(ctx):
         schedules_explored=schedules, distinct_traces=traces, max_choice_depth=depth, cases=len(cases),
         serial_reference_runs=serial_runs, largest_case_schedules=max(v['schedules'] for v in per_case.values()),
         conformance=dict(real_pool_interleavings=len(real_items),
-                         selection=f'file sets {conf_sets} x handler configs {list(conf_cfgs)} x W in (2,3) (3 files: ' +
-                                   ('D with W=2,3 and DV with W=2' if quick else 'all with W=2, D and DV with W=3') +
-                                   '; 2 files: W=2 only): one interleaving per class '
-                                   '(order of appends per handler list + completion order), forced through GateHandlers; ordered '
-                                   'handler outputs and checked count must equal the model\'s prediction for that interleaving'),
+                         selection=f'(file set, handlers, W) in {conf}: one interleaving per class (order of appends per handler '
+                                   'list + completion order), forced through GateHandlers; ordered handler outputs and checked count '
+                                   'must equal the model\'s prediction for that interleaving'),
         wall=dict(explore=round(t_explore, 1), real_pool=round(t_real, 1)),
         rule='cases = file sets (every sequence of kinds for <=2 files, ' + ('every multiset' if quick else 'every sequence') +
-             ' for 3 files' + ('' if quick else ', every multiset of 4 files with the default handler, two all-kinds sets of 4 with '
-                               'two handlers, every multiset of 3 with all three handlers') +
+             ' for 3 files' + ('' if quick else ', every multiset of 4 files with the default handler, one all-kinds set of 4 with '
+                               'two handlers on 2 workers, every multiset of 3 (and sequence of 2) with all three handlers on 2 workers, '
+                               'one set of 3 with all three handlers on 3 workers') +
              ') x handler configs (D default, V violations file, J JUnit) x W in {2,3}, each against its own W=1 run; per case a DFS over '
              'every interleaving of "append to handler list k" and "task complete" events; distinct_nontrivial = distinct '
              'event sequences summed over cases; states/transitions = distinct (main position, pool state) and (state, event) pairs',
